@@ -1,856 +1,71 @@
 // C12 — LRUSet / LRUMap behave as a reference recency list under every operation history.
 //
-// E-BFS over the real containers (DESIGN.md §5 C12).  A state is an operation history replayed on
-// fresh objects (two instances X and Y, so that swap is covered); it is identified by a canonical
-// string read through the *real* head/next links (white-box) plus total_size.  The abstract space
-// is finite (3 keys, 3 sizes, 2 values), so the search runs to a FIXPOINT.  In every state reached:
-// the return value / exception class of the operation, the list order, sizes, values and total
-// read through the links, size()/count()/peek()/empty(), and the white-box link invariant are
-// compared with a reference recency list; every state is finally drained with evict_object and
-// destroyed under ASan/LSan.
-//
-// The merging of states is validated by un-merged runs (sections *_seq): every operation sequence
-// up to a length bound is executed from scratch with the same per-step oracle, and every state it
-// passes through must be a state of the closure at BFS depth <= the number of steps taken.
-#include <string.h>
+// The machinery (operations, reference recency list, canonical form, systems under test, checker, search,
+// un-merged runs, alphabets) is in C12_core.hh.  This file: the int-keyed scopes of round 1 (fixpoints
+// set_bfs / map_m1_bfs / map_m2_bfs and the un-merged runs set_seq / map_seq that validate the merging).
+// C12_types.cc: std::string keys and values, one-bucket keys, move-only values, heap objects of a derived
+// class, aliased key arguments.  C12_big.cc: 64-bit boundary sizes, execution contexts.
+#include "C12_core.hh"
 
-#include <string>
-#include <utility>
-#include <vector>
-
-#include "LRUMap.hh"
-#include "LRUSet.hh"
-#include "bfs.hh"
-#include "vf.hh"
-
-using namespace phosg;
+using namespace c12;
 
 namespace {
 
-// ---- operations -----------------------------------------------------------------------------------
+const std::vector<uint64_t> S012 = {0, 1, 2};
+const std::vector<uint64_t> S12 = {1, 2};
 
-enum Kind : uint8_t {
-  INSERT, INSERT_DEF, INSERT_C, EMPLACE, ERASE, TOUCH, TOUCH_SZ, CHANGE_SIZE, CHANGE_SIZE_F,
-  AT, AT_CONST, AT_WRITE, ITEM_SIZE, EVICT, PEEK, CLEAR, SWAP_XY, SWAP_YX, SWAP_XX
-};
-
-struct Op {
-  Kind kind;
-  int k = 0, s = 0, v = 0;
-  bool touch = false;
-};
-
-const char* fn_name(Kind k) {
-  switch (k) {
-    case INSERT: case INSERT_DEF: return "insert";
-    case INSERT_C: return "insert(const&)";
-    case EMPLACE: return "emplace";
-    case ERASE: return "erase";
-    case TOUCH: case TOUCH_SZ: return "touch";
-    case CHANGE_SIZE: case CHANGE_SIZE_F: return "change_size";
-    case AT: case AT_WRITE: return "at";
-    case AT_CONST: return "at-const";
-    case ITEM_SIZE: return "item_size";
-    case EVICT: return "evict_object";
-    case PEEK: return "peek";
-    case CLEAR: return "clear";
-    case SWAP_XY: case SWAP_YX: case SWAP_XX: return "swap";
-  }
-  return "?";
-}
-
-std::string op_text(const Op& o, bool is_map) {
-  switch (o.kind) {
-    case INSERT: return is_map ? vf::fmt("X.insert(%d,%d,%d)", o.k, o.v, o.s) : vf::fmt("X.insert(%d,%d)", o.k, o.s);
-    case INSERT_DEF: return is_map ? vf::fmt("X.insert(%d,%d)", o.k, o.v) : vf::fmt("X.insert(%d)", o.k);
-    case INSERT_C: return vf::fmt("X.insert(const& %d,const& %d,%d)", o.k, o.v, o.s);
-    case EMPLACE: return is_map ? vf::fmt("X.emplace(%d,%d,%d)", o.k, o.v, o.s) : vf::fmt("X.emplace(%d,%d)", o.k, o.s);
-    case ERASE: return vf::fmt("X.erase(%d)", o.k);
-    case TOUCH: return vf::fmt("X.touch(%d)", o.k);
-    case TOUCH_SZ: return vf::fmt("X.touch(%d,%d)", o.k, o.s);
-    case CHANGE_SIZE: return vf::fmt("X.change_size(%d,%d)", o.k, o.s);
-    case CHANGE_SIZE_F: return vf::fmt("X.change_size(%d,%d,%s)", o.k, o.s, o.touch ? "true" : "false");
-    case AT: return vf::fmt("X.at(%d)", o.k);
-    case AT_CONST: return vf::fmt("const X.at(%d)", o.k);
-    case AT_WRITE: return vf::fmt("X.at(%d)=%d", o.k, o.v);
-    case ITEM_SIZE: return vf::fmt("X.item_size(%d)", o.k);
-    case EVICT: return "X.evict_object()";
-    case PEEK: return "X.peek()";
-    case CLEAR: return "X.clear()";
-    case SWAP_XY: return "X.swap(Y)";
-    case SWAP_YX: return "Y.swap(X)";
-    case SWAP_XX: return "X.swap(X)";
-  }
-  return "?";
-}
-
-// result of one call: void / bool / entry / value / size / exception class
-struct Res {
-  enum Code { VOID, BOOL, ENTRY, VALUE, SIZE, OUT_OF_RANGE, OTHER_EXCEPTION } code = VOID;
-  long a = 0, b = 0, c = 0;
-  bool operator==(const Res& o) const { return code == o.code && a == o.a && b == o.b && c == o.c; }
-  std::string str(bool is_map) const {
-    switch (code) {
-      case VOID: return "(returns)";
-      case BOOL: return a ? "true" : "false";
-      case ENTRY: return is_map ? vf::fmt("{key %ld, value %ld, size %ld}", a, b, c) : vf::fmt("{key %ld, size %ld}", a, c);
-      case VALUE: return vf::fmt("value %ld", a);
-      case SIZE: return vf::fmt("size %ld", a);
-      case OUT_OF_RANGE: return "throws out_of_range";
-      case OTHER_EXCEPTION: return "throws something other than out_of_range";
-    }
-    return "?";
-  }
-};
-Res rbool(bool b) { Res r; r.code = Res::BOOL; r.a = b; return r; }
-Res rentry(long k, long v, long s) { Res r; r.code = Res::ENTRY; r.a = k; r.b = v; r.c = s; return r; }
-Res rvalue(long v) { Res r; r.code = Res::VALUE; r.a = v; return r; }
-Res rsize(long v) { Res r; r.code = Res::SIZE; r.a = v; return r; }
-Res rcode(Res::Code c) { Res r; r.code = c; return r; }
-
-// ---- the reference model: a recency list, front = most recently used ------------------------------
-// (a fixed array instead of std::list only to keep allocation out of the 10^8-step un-merged runs;
-//  at most 3 keys exist)
-
-struct Entry {
-  int k = 0, v = 0;
-  size_t s = 0;
-};
-
-struct RecencyList {
-  Entry e[4];
-  int n = 0;
-  int find(int k) const {
-    for (int i = 0; i < n; i++) if (e[i].k == k) return i;
-    return -1;
-  }
-  void push_front(const Entry& x) {
-    for (int i = n; i > 0; i--) e[i] = e[i - 1];
-    e[0] = x;
-    n++;
-  }
-  void remove(int i) {
-    for (; i + 1 < n; i++) e[i] = e[i + 1];
-    n--;
-  }
-  void to_front(int i) {
-    Entry x = e[i];
-    remove(i);
-    push_front(x);
-  }
-  size_t total() const {
-    size_t t = 0;
-    for (int i = 0; i < n; i++) t += e[i].s;
-    return t;
-  }
-};
-
-// Which operations refresh recency is the library's own documented behaviour (LRUSet-inl.hh comment
-// "item already existed ... just update the size and move the item to the front of the lru", touch;
-// LRUMap.hh: at() touches, insert on an existing key touches, change_size(touch = true), touch();
-// emplace on an existing key "returns false" and changes nothing).
-Res model_apply(RecencyList& X, RecencyList& Y, const Op& o, bool is_map) {
-  int i = X.find(o.k);
-  switch (o.kind) {
-    case INSERT: case INSERT_DEF: case INSERT_C: case EMPLACE: {
-      size_t s = (o.kind == INSERT_DEF) ? (is_map ? 1 : 0) : (size_t)o.s;
-      if (i < 0) {
-        Entry x;
-        x.k = o.k; x.v = o.v; x.s = s;
-        X.push_front(x);
-        return rbool(true);
-      }
-      if (is_map && o.kind == EMPLACE) return rbool(false);  // existing key: untouched
-      X.e[i].s = s;
-      if (is_map) X.e[i].v = o.v;
-      X.to_front(i);
-      return rbool(false);
-    }
-    case ERASE:
-      if (i < 0) return rbool(false);
-      X.remove(i);
-      return rbool(true);
-    case TOUCH: case TOUCH_SZ:
-      if (i < 0) return rbool(false);
-      if (o.kind == TOUCH_SZ) X.e[i].s = (size_t)o.s;
-      X.to_front(i);
-      return rbool(true);
-    case CHANGE_SIZE: case CHANGE_SIZE_F: {
-      if (i < 0) return rbool(false);
-      X.e[i].s = (size_t)o.s;
-      bool touch = is_map && (o.kind == CHANGE_SIZE || o.touch);  // LRUSet::change_size never touches
-      if (touch) X.to_front(i);
-      return rbool(true);
-    }
-    case AT: case AT_CONST: case AT_WRITE: {
-      if (i < 0) return rcode(Res::OUT_OF_RANGE);
-      if (o.kind == AT_WRITE) X.e[i].v = o.v;
-      long v = X.e[i].v;
-      X.to_front(i);
-      return o.kind == AT_WRITE ? rcode(Res::VOID) : rvalue(v);
-    }
-    case ITEM_SIZE:
-      if (i < 0) return rcode(Res::OUT_OF_RANGE);
-      return rsize((long)X.e[i].s);
-    case EVICT: case PEEK: {
-      if (X.n == 0) return rcode(Res::OUT_OF_RANGE);
-      Entry x = X.e[X.n - 1];  // least recently used
-      if (o.kind == EVICT) X.remove(X.n - 1);
-      return rentry(x.k, is_map ? x.v : 0, (long)x.s);
-    }
-    case CLEAR: X.n = 0; return rcode(Res::VOID);
-    case SWAP_XY: case SWAP_YX: std::swap(X, Y); return rcode(Res::VOID);
-    case SWAP_XX: return rcode(Res::VOID);
-  }
-  return rcode(Res::VOID);
-}
-
-// ---- canonical form ------------------------------------------------------------------------------
-
-struct Canon {
-  char b[80];
-  Canon() { memset(b, 0, sizeof(b)); }
-  bool operator==(const Canon& o) const { return memcmp(b, o.b, sizeof(b)) == 0; }
-  bool operator!=(const Canon& o) const { return !(*this == o); }
-  std::string str() const { return std::string(b); }
-};
-struct HashCanon {
-  uint64_t operator()(const Canon& c) const {
-    uint64_t h = 0xCBF29CE484222325ull;
-    for (size_t i = 0; i < sizeof(c.b) && c.b[i]; i++) h = (h ^ (unsigned char)c.b[i]) * 0x100000001B3ull;
-    return bfs::mix64(h);
-  }
-};
-struct CanonWriter {
-  Canon& c;
-  size_t n = 0;
-  explicit CanonWriter(Canon& cc) : c(cc) {}
-  void ch(char x) { if (n + 1 < sizeof(c.b)) c.b[n++] = x; }
-  void num(unsigned long long v) {
-    char t[24];
-    int m = 0;
-    do { t[m++] = (char)('0' + v % 10); v /= 10; } while (v);
-    while (m) ch(t[--m]);
-  }
-  void entry(long k, long v, size_t s, bool is_map) {
-    ch('k'); num((unsigned long long)k);
-    if (is_map) { ch('v'); num((unsigned long long)v); }
-    ch('s'); num(s);
-    ch(' ');
-  }
-};
-
-void model_canon_one(const RecencyList& L, CanonWriter& w, bool is_map) {
-  for (int i = 0; i < L.n; i++) w.entry(L.e[i].k, L.e[i].v, L.e[i].s, is_map);
-  w.ch('|');
-  w.num(L.total());
-}
-
-// ---- the two systems under test --------------------------------------------------------------------
-
-struct SetSys {
-  static constexpr bool is_map = false;
-  static const char* cname() { return "LRUSet"; }
-  using C = LRUSet<int>;
-  struct World {
-    C X, Y;
-    RecencyList MX, MY;
-  };
-
-  static Res real(World& w, const Op& o) {
-    try {
-      switch (o.kind) {
-        case INSERT: return rbool(w.X.insert(o.k, (size_t)o.s));
-        case INSERT_DEF: return rbool(w.X.insert(o.k));
-        case EMPLACE: { int kk = o.k; return rbool(w.X.emplace(std::move(kk), (size_t)o.s)); }
-        case ERASE: return rbool(w.X.erase(o.k));
-        case TOUCH: return rbool(w.X.touch(o.k));
-        case TOUCH_SZ: return rbool(w.X.touch(o.k, (ssize_t)o.s));
-        case CHANGE_SIZE: return rbool(w.X.change_size(o.k, (size_t)o.s));
-        case EVICT: { auto p = w.X.evict_object(); return rentry(p.first, 0, (long)p.second); }
-        case PEEK: { auto p = w.X.peek(); return rentry(p.first, 0, (long)p.second); }
-        case CLEAR: w.X.clear(); return rcode(Res::VOID);
-        case SWAP_XY: w.X.swap(w.Y); return rcode(Res::VOID);
-        case SWAP_YX: w.Y.swap(w.X); return rcode(Res::VOID);
-        case SWAP_XX: w.X.swap(w.X); return rcode(Res::VOID);
-        default: break;
-      }
-    } catch (const std::out_of_range&) { return rcode(Res::OUT_OF_RANGE);
-    } catch (...) { return rcode(Res::OTHER_EXCEPTION); }
-    return rcode(Res::VOID);
-  }
-
-  // white-box walk through the real links; false + problem when the link invariant is broken
-  static bool inspect_one(C& L, CanonWriter& out, std::string& problem) {
-    size_t n = L.items.size(), steps = 0, sum = 0;
-    if ((L.head == nullptr) != (L.tail == nullptr)) { problem = "head and tail are not null together"; return false; }
-    if ((n == 0) != (L.head == nullptr)) { problem = "head is null iff the map is empty does not hold"; return false; }
-    if (L.head && L.head->prev) { problem = "head->prev is not null"; return false; }
-    if (L.tail && L.tail->next) { problem = "tail->next is not null"; return false; }
-    C::Item* prev = nullptr;
-    for (C::Item* i = L.head; i; prev = i, i = i->next) {
-      if (++steps > n) { problem = "list is longer than the map (cycle or stale node)"; return false; }
-      if (i->prev != prev) { problem = "prev link does not mirror next link"; return false; }
-      if (!i->key) { problem = "node has a null key pointer"; return false; }
-      auto it = L.items.find(*i->key);
-      if (it == L.items.end() || &it->second != i) { problem = "linked node is not the map's node for its key"; return false; }
-      if (i->key != &it->first) { problem = "key pointer does not point at the node's own map key"; return false; }
-      sum += i->size;
-      out.entry(*i->key, 0, i->size, false);
-    }
-    if (prev != L.tail) { problem = "tail is not the last node reached from head"; return false; }
-    if (steps != n) { problem = "list is shorter than the map"; return false; }
-    out.ch('|');
-    out.num(L.total_size);
-    if (sum != L.total_size) { problem = vf::fmt("total_size is %zu but the entries sum to %zu", L.total_size, sum); return false; }
-    return true;
-  }
-  static bool observe_one(C& L, const RecencyList& M, const char* which, std::string& what) {
-    if (L.size() != M.total()) { what = vf::fmt("size:%s.size() == %zu, expected %zu", which, L.size(), M.total()); return false; }
-    if (L.count() != (size_t)M.n) { what = vf::fmt("count:%s.count() == %zu, expected %d", which, L.count(), M.n); return false; }
-    // peek() on an empty set must throw; that is decided by the PEEK letter of the alphabet (and by the
-    // drain of every BFS state), not re-thrown after each of the ~10^8 steps (C++ throws are slow under ASan)
-    if (M.n == 0) return true;
-    Res got;
-    try { auto p = L.peek(); got = rentry(p.first, 0, (long)p.second);
-    } catch (const std::out_of_range&) { got = rcode(Res::OUT_OF_RANGE);
-    } catch (...) { got = rcode(Res::OTHER_EXCEPTION); }
-    Res exp = rentry(M.e[M.n - 1].k, 0, (long)M.e[M.n - 1].s);
-    if (!(got == exp)) { what = std::string("peek:") + which + ".peek(): " + got.str(false) + ", expected " + exp.str(false); return false; }
-    return true;
-  }
-  static Res evict(C& L) {
-    try { auto p = L.evict_object(); return rentry(p.first, 0, (long)p.second);
-    } catch (const std::out_of_range&) { return rcode(Res::OUT_OF_RANGE);
-    } catch (...) { return rcode(Res::OTHER_EXCEPTION); }
-  }
-};
-
-struct MapSys {
-  static constexpr bool is_map = true;
-  static const char* cname() { return "LRUMap"; }
-  using C = LRUMap<int, int>;
-  struct World {
-    C X, Y;
-    RecencyList MX, MY;
-  };
-
-  static Res real(World& w, const Op& o) {
-    try {
-      int kk = o.k, vv = o.v;
-      switch (o.kind) {
-        case INSERT: return rbool(w.X.insert(std::move(kk), std::move(vv), (size_t)o.s));
-        case INSERT_DEF: return rbool(w.X.insert(std::move(kk), std::move(vv)));
-        case INSERT_C: {
-#ifdef C12_HAVE_INSERT_CONSTREF
-          const int& kr = kk;
-          const int& vr = vv;
-          return rbool(w.X.insert(kr, vr, (size_t)o.s));
-#else
-          return rcode(Res::OTHER_EXCEPTION);
-#endif
-        }
-        case EMPLACE: return rbool(w.X.emplace(std::move(kk), std::move(vv), (size_t)o.s));
-        case ERASE: return rbool(w.X.erase(o.k));
-        case TOUCH: return rbool(w.X.touch(o.k));
-        case TOUCH_SZ: return rbool(w.X.touch(o.k, (ssize_t)o.s));
-        case CHANGE_SIZE: return rbool(w.X.change_size(o.k, (size_t)o.s));
-        case CHANGE_SIZE_F: return rbool(w.X.change_size(o.k, (size_t)o.s, o.touch));
-        case AT: { int& ref = w.X.at(o.k); return rvalue(ref); }
-        case AT_CONST: {
-#ifdef C12_HAVE_AT_CONST
-          const C& cx = w.X;
-          const int& ref = cx.at(o.k);
-          return rvalue(ref);
-#else
-          return rcode(Res::OTHER_EXCEPTION);
-#endif
-        }
-        case AT_WRITE: w.X.at(o.k) = o.v; return rcode(Res::VOID);
-        case ITEM_SIZE: return rsize((long)w.X.item_size(o.k));
-        case EVICT: { auto e = w.X.evict_object(); return rentry(e.key, e.value, (long)e.size); }
-        case CLEAR: w.X.clear(); return rcode(Res::VOID);
-        case SWAP_XY: w.X.swap(w.Y); return rcode(Res::VOID);
-        case SWAP_YX: w.Y.swap(w.X); return rcode(Res::VOID);
-        case SWAP_XX: w.X.swap(w.X); return rcode(Res::VOID);
-        default: break;
-      }
-    } catch (const std::out_of_range&) { return rcode(Res::OUT_OF_RANGE);
-    } catch (...) { return rcode(Res::OTHER_EXCEPTION); }
-    return rcode(Res::VOID);
-  }
-
-  static bool inspect_one(C& L, CanonWriter& out, std::string& problem) {
-    size_t n = L.items.size(), steps = 0, sum = 0;
-    if ((L.head == nullptr) != (L.tail == nullptr)) { problem = "head and tail are not null together"; return false; }
-    if ((n == 0) != (L.head == nullptr)) { problem = "head is null iff the map is empty does not hold"; return false; }
-    if (L.head && L.head->prev) { problem = "head->prev is not null"; return false; }
-    if (L.tail && L.tail->next) { problem = "tail->next is not null"; return false; }
-    C::Item* prev = nullptr;
-    for (C::Item* i = L.head; i; prev = i, i = i->next) {
-      if (++steps > n) { problem = "list is longer than the map (cycle or stale node)"; return false; }
-      if (i->prev != prev) { problem = "prev link does not mirror next link"; return false; }
-      if (!i->key) { problem = "node has a null key pointer"; return false; }
-      auto it = L.items.find(*i->key);
-      if (it == L.items.end() || &it->second != i) { problem = "linked node is not the map's node for its key"; return false; }
-      if (i->key != &it->first) { problem = "key pointer does not point at the node's own map key"; return false; }
-      sum += i->size;
-      out.entry(*i->key, i->value, i->size, true);
-    }
-    if (prev != L.tail) { problem = "tail is not the last node reached from head"; return false; }
-    if (steps != n) { problem = "list is shorter than the map"; return false; }
-    out.ch('|');
-    out.num(L.total_size);
-    if (sum != L.total_size) { problem = vf::fmt("total_size is %zu but the entries sum to %zu", L.total_size, sum); return false; }
-    return true;
-  }
-  static bool observe_one(C& L, const RecencyList& M, const char* which, std::string& what) {
-    if (L.size() != M.total()) { what = vf::fmt("size:%s.size() == %zu, expected %zu", which, L.size(), M.total()); return false; }
-    if (L.count() != (size_t)M.n) { what = vf::fmt("count:%s.count() == %zu, expected %d", which, L.count(), M.n); return false; }
-    if (L.empty() != (M.n == 0)) { what = vf::fmt("empty:%s.empty() == %d with %d entries", which, (int)L.empty(), M.n); return false; }
-    return true;
-  }
-  static Res evict(C& L) {
-    try { auto e = L.evict_object(); return rentry(e.key, e.value, (long)e.size);
-    } catch (const std::out_of_range&) { return rcode(Res::OUT_OF_RANGE);
-    } catch (...) { return rcode(Res::OTHER_EXCEPTION); }
-  }
-};
-
-// ---- checker shared by the BFS and the un-merged runs ------------------------------------------------
-
-template <class Sys>
-struct Checker {
-  using World = typename Sys::World;
-  using Table = bfs::Table<Canon, HashCanon>;
-  struct Ctx {  // the history text is only rendered when a failure is described
-    bool report;
-    const std::vector<uint32_t>* hist;
-    size_t len;
-  };
-
-  vf::Run& r;
-  std::vector<Op> alpha;
-  std::vector<std::string> names;
-  std::string note_buf;
-
-  Checker(vf::Run& run, std::vector<Op> a) : r(run), alpha(std::move(a)) {
-    for (auto& o : alpha) names.push_back(op_text(o, Sys::is_map));
-  }
-
-  template <class F>
-  void fail(const Ctx& c, const std::string& key, F&& what) {
-    if (!c.report) return;
-    r.fail(key, [&] { return "after history [" + describe(*c.hist, c.len) + "]: " + what(); });
-  }
-  std::string key_of(const Op& o, const char* kind) const { return std::string(Sys::cname()) + "::" + fn_name(o.kind) + ":" + kind; }
-
-  static bool inspect(World& w, Canon& c, std::string& problem) {
-    CanonWriter cw(c);
-    if (!Sys::inspect_one(w.X, cw, problem)) { problem = "X: " + problem; return false; }
-    cw.ch('/');
-    if (!Sys::inspect_one(w.Y, cw, problem)) { problem = "Y: " + problem; return false; }
-    return true;
-  }
-  static Canon model_canon(const World& w) {
-    Canon c;
-    CanonWriter cw(c);
-    model_canon_one(w.MX, cw, Sys::is_map);
-    cw.ch('/');
-    model_canon_one(w.MY, cw, Sys::is_map);
-    return c;
-  }
-
-  void set_note(const Op* o, const std::string* name, const std::string& hs) {
-    note_buf.assign("call:");
-    note_buf += Sys::cname();
-    note_buf += "::";
-    note_buf += o ? fn_name(o->kind) : "replay";
-    note_buf += ' ';
-    if (name) { note_buf += *name; note_buf += ' '; }
-    note_buf += "after [";
-    note_buf += hs;
-    note_buf += ']';
-    r.note(note_buf);
-  }
-
-  // One operation on the real objects and on the model, followed by every per-step check.
-  // false: the objects must not be used any further (invariant broken / diverged from the model).
-  bool step(World& w, size_t letter, const Ctx& c, Canon* out) {
-    const Op& o = alpha[letter];
-    Res got = Sys::real(w, o);
-    Res exp = model_apply(w.MX, w.MY, o, Sys::is_map);
-    if (!(got == exp)) fail(c, key_of(o, "result"), [&] { return names[letter] + ": " + got.str(Sys::is_map) + ", expected " + exp.str(Sys::is_map); });
-    Canon cr;
-    std::string problem;
-    if (!inspect(w, cr, problem)) {
-      fail(c, key_of(o, "link-invariant"), [&] { return names[letter] + " leaves " + problem; });
-      return false;
-    }
-    Canon cm = model_canon(w);
-    if (cr != cm) {
-      fail(c, key_of(o, "state"), [&] { return names[letter] + ": lists read through the real links (head..tail|total_size, X/Y) are [" + cr.str() + "], reference recency list is [" + cm.str() + "]"; });
-      return false;
-    }
-    std::string what;
-    if (!Sys::observe_one(w.X, w.MX, "X", what) || !Sys::observe_one(w.Y, w.MY, "Y", what)) {
-      size_t colon = what.find(':');
-      fail(c, std::string(Sys::cname()) + "::" + what.substr(0, colon) + ":after-" + fn_name(o.kind), [&] { return "after " + names[letter] + ": " + what.substr(colon + 1); });
-      return false;
-    }
-    // observers must not move anything
-    Canon c2;
-    if (!inspect(w, c2, problem) || c2 != cr) {
-      fail(c, std::string(Sys::cname()) + "::observers:change-state", [&] { return "size()/count()/peek()/empty() after " + names[letter] + " changed the lists to [" + c2.str() + "] " + problem; });
-      return false;
-    }
-    if (out) *out = cr;
-    return true;
-  }
-
-  // Rebuilds a state: operations only, no per-step checks (every step of every stored history was
-  // checked when it was first taken; the rebuilt canonical form is compared once per state).
-  bool replay(World& w, const std::vector<uint32_t>& h) {
-    for (uint32_t l : h) {
-      Sys::real(w, alpha[l]);
-      model_apply(w.MX, w.MY, alpha[l], Sys::is_map);
-    }
-    return true;
-  }
-
-  // final drain: repeated evict_object must hand back the model's entries from least to most recent
-  // past_the_end: also demand that one more evict_object on the emptied container throws out_of_range
-  void drain_one(typename Sys::C& L, RecencyList& M, const char* which, const Ctx& c, bool past_the_end) {
-    for (int guard = 0; guard < 8; guard++) {
-      if (!M.n && !past_the_end) break;
-      Res exp = M.n ? rentry(M.e[M.n - 1].k, Sys::is_map ? M.e[M.n - 1].v : 0, (long)M.e[M.n - 1].s) : rcode(Res::OUT_OF_RANGE);
-      if (M.n) M.remove(M.n - 1);
-      Res got = Sys::evict(L);
-      if (!(got == exp)) {
-        fail(c, std::string(Sys::cname()) + "::drain:evict_object", [&] { return std::string("draining ") + which + ": evict_object " + got.str(Sys::is_map) + ", expected " + exp.str(Sys::is_map); });
-        return;
-      }
-      if (exp.code == Res::OUT_OF_RANGE) break;
-    }
-    if (L.size() != 0 || L.count() != 0)
-      fail(c, std::string(Sys::cname()) + "::drain:not-empty", [&] { return std::string("after draining ") + which + vf::fmt(": size() == %zu, count() == %zu", L.size(), L.count()); });
-  }
-  void drain(World& w, const Ctx& c, bool past_the_end) {
-    drain_one(w.X, w.MX, "X", c, past_the_end);
-    drain_one(w.Y, w.MY, "Y", c, past_the_end);
-    Canon cr;
-    std::string problem;
-    if (!inspect(w, cr, problem)) fail(c, std::string(Sys::cname()) + "::drain:link-invariant", [&] { return "drained containers: " + problem; });
-  }
-
-  std::string describe(const std::vector<uint32_t>& h, size_t len) const {
-    std::string s;
-    for (size_t i = 0; i < len && i < h.size(); i++) { if (i) s += "; "; s += names[h[i]]; }
-    return s;
-  }
-
-  // ---- search to fixpoint ---------------------------------------------------------------------------
-  using Search = bfs::LevelSearch<Canon, HashCanon>;
-
-  static Canon root_key() {
-    World w;
-    Canon c0;
-    std::string problem;
-    inspect(w, c0, problem);
-    return c0;
-  }
-
-  // everything that is done for one state (runs inside a worker process, see bfs.hh)
-  void expand(const Search& ls, uint32_t i, const typename Search::Emit& emit, bool mine) {
-    std::vector<uint32_t> hist;
-    ls.tab.history(i, hist);
-    std::string hs = describe(hist, hist.size());
-    Ctx c{mine, &hist, hist.size()};
-    if (mine && r.wants_desc()) r.desc(vf::fmt("state %u [%s]: ", i, ls.tab.key(i).str().c_str()) + (hs.empty() ? "(fresh containers)" : hs));
-    int nx = 0;
-    {
-      // replay: the canonical form must be reproduced; then drain and destroy
-      World w;
-      set_note(nullptr, nullptr, hs);
-      replay(w, hist);
-      Canon cr;
-      std::string problem;
-      if (!inspect(w, cr, problem) || cr != ls.tab.key(i)) {
-        fail(c, std::string(Sys::cname()) + "::replay:canonical-form-differs", [&] { return "stored [" + ls.tab.key(i).str() + "], replay gives [" + cr.str() + "] " + problem; });
-        if (mine) r.exhaustive = false;
-        return;
-      }
-      nx = w.MX.n;
-      if (mine) {
-        r.states++;
-        drain(w, c, true);
-      }
-    }
-    for (size_t l = 0; l < alpha.size(); l++) {
-      World w;
-      replay(w, hist);
-      set_note(&alpha[l], &names[l], hs);
-      Canon cn;
-      if (step(w, l, c, &cn)) emit((uint32_t)l, cn);
-      if (mine) {
-        r.transitions++;
-        r.evals++;
-        if (nx >= 2) r.nontriv();
-      }
-    }
-    if (mine) r.ok(vf::fmt("state with %d entries in X", nx));
-  }
-
-  void bfs_section(const char* text, int workers) {
-    Search ls(r, workers);
-    ls.run(root_key(), [&](uint32_t i, const typename Search::Emit& emit, bool mine) { expand(ls, i, emit, mine); });
-    if (!ls.replaying()) {
-      r.counters["fixpoint_reached"] = ls.stopped_early ? 0 : 1;
-      r.counters["states_in_closure"] = ls.tab.size();
-      r.counters["max_depth"] = ls.tab.max_depth;
-      r.counters["alphabet_size"] = alpha.size();
-      r.counters["workers"] = (uint64_t)workers;
-      if (ls.stopped_early) r.exhaustive = false;
-    }
-    r.bound = vf::fmt("%s: fixpoint, %zu states (pairs of lists X/Y), %zu operations applied in each, max BFS depth %u; every state drained and destroyed", text, ls.tab.size(), alpha.size(), ls.tab.max_depth);
-  }
-
-  // quiet sequential closure of this alphabet (no reporting): the reference set for the un-merged runs
-  void quiet_closure(Table& tab) {
-    std::vector<uint32_t> hist;
-    tab.add_root(root_key());
-    for (uint32_t i = 0; i < tab.size(); i++) {
-      tab.history(i, hist);
-      Ctx quiet{false, &hist, hist.size()};
-      for (size_t l = 0; l < alpha.size(); l++) {
-        World w;
-        replay(w, hist);
-        Canon cn;
-        if (step(w, l, quiet, &cn)) tab.add(cn, i, (uint32_t)l);
-      }
-    }
-  }
-
-  // ---- un-merged exhaustive sequences -----------------------------------------------------------------
-  // Every sequence over the alphabet with length <= maxlen, each executed from scratch (E-ENUM style,
-  // sharded by r.take()); every state passed through must lie in the closure at depth <= steps taken.
-  void sequences(size_t maxlen, const char* text) {
-    Table tab;
-    quiet_closure(tab);
-    r.note(std::string("unmerged:") + Sys::cname());
-    uint64_t nseq = 0;
-    std::vector<uint32_t> seq;
-    const std::string bad_label = vf::fmt("%s: stopped at a violation", text);
-    for (size_t len = 0; len <= maxlen; len++) {
-      const std::string ok_label = vf::fmt("%s: length-%zu sequence agrees with the model at every step", text, len);
-      seq.assign(len, 0);
-      for (;;) {
-        nseq++;
-        if (r.take()) {
-          if (r.wants_desc()) r.desc(vf::fmt("%s: ", text) + (len ? describe(seq, len) : std::string("(empty sequence)")));
-          World w;
-          bool ok = true, nontrivial = false;
-          for (size_t sidx = 0; sidx < len && ok; sidx++) {
-            if (w.MX.n >= 2) nontrivial = true;
-            Ctx c{true, &seq, sidx};
-            Canon cn;
-            ok = step(w, seq[sidx], c, &cn);
-            if (ok) {
-              int64_t at = tab.set.find(cn);
-              if (at < 0 || tab.recs[(size_t)at].depth > sidx + 1) {
-                fail(c, std::string(Sys::cname()) + "::unmerged:state-outside-closure", [&] {
-                  return names[seq[sidx]] + " reaches [" + cn.str() + "], which " + (at < 0 ? std::string("the merged search never found") : vf::fmt("the merged search only found at depth %u", (unsigned)tab.recs[(size_t)at].depth));
-                });
-                ok = false;
-              }
-            }
-          }
-          if (ok) {
-            Ctx c{true, &seq, len};
-            drain(w, c, false);
-          }
-          if (nontrivial) r.nontriv();
-          r.ok(ok ? ok_label : bad_label);
-        }
-        size_t p = 0;
-        for (; p < len; p++) {
-          if (++seq[p] < alpha.size()) break;
-          seq[p] = 0;
-        }
-        if (p == len) break;
-      }
-    }
-    if (!r.bound.empty()) r.bound += "; ";
-    r.bound += vf::fmt("%s: all %llu sequences of length <= %zu over %zu letters, un-merged (closure of this alphabet: %zu states)", text, (unsigned long long)nseq, maxlen, alpha.size(), tab.size());
-  }
-};
-
-// ---- alphabets (simplest first) ------------------------------------------------------------------------
-
-Op mk(Kind kind, int k = 0, int s = 0, int v = 0, bool touch = false) {
-  Op o;
-  o.kind = kind; o.k = k; o.s = s; o.v = v; o.touch = touch;
-  return o;
-}
-
-std::vector<Op> set_alphabet(bool with_swap) {
-  std::vector<Op> a;
-  for (int k = 0; k < 3; k++) for (int s = 0; s < 3; s++) a.push_back(mk(INSERT, k, s));
-  for (int k = 0; k < 3; k++) a.push_back(mk(INSERT_DEF, k));
-  for (int k = 0; k < 3; k++) for (int s = 0; s < 3; s++) a.push_back(mk(EMPLACE, k, s));
-  for (int k = 0; k < 3; k++) a.push_back(mk(ERASE, k));
-  for (int k = 0; k < 3; k++) a.push_back(mk(TOUCH, k));
-  for (int k = 0; k < 3; k++) for (int s = 0; s < 3; s++) a.push_back(mk(TOUCH_SZ, k, s));
-  for (int k = 0; k < 3; k++) for (int s = 0; s < 3; s++) a.push_back(mk(CHANGE_SIZE, k, s));
-  a.push_back(mk(EVICT));
-  a.push_back(mk(PEEK));
-  a.push_back(mk(CLEAR));
-  if (with_swap) { a.push_back(mk(SWAP_XY)); a.push_back(mk(SWAP_YX)); a.push_back(mk(SWAP_XX)); }
-  return a;
-}
-std::vector<Op> set_medium() {  // 33 letters for the length-5 runs
-  std::vector<Op> a;
-  for (int k = 0; k < 3; k++) for (int s = 1; s < 3; s++) a.push_back(mk(INSERT, k, s));
-  for (int k = 0; k < 3; k++) a.push_back(mk(EMPLACE, k, 0));
-  for (int k = 0; k < 3; k++) a.push_back(mk(EMPLACE, k, 2));
-  for (int k = 0; k < 3; k++) a.push_back(mk(ERASE, k));
-  for (int k = 0; k < 3; k++) a.push_back(mk(TOUCH, k));
-  for (int k = 0; k < 3; k++) a.push_back(mk(TOUCH_SZ, k, 0));
-  for (int k = 0; k < 3; k++) a.push_back(mk(TOUCH_SZ, k, 1));
-  for (int k = 0; k < 3; k++) a.push_back(mk(CHANGE_SIZE, k, 2));
-  for (int k = 0; k < 3; k++) a.push_back(mk(CHANGE_SIZE, k, 0));
-  a.push_back(mk(EVICT));
-  a.push_back(mk(PEEK));
-  a.push_back(mk(CLEAR));
-  return a;
-}
-std::vector<Op> set_reduced() {  // 12 letters for the length-7 runs
-  return {mk(INSERT, 0, 1), mk(INSERT, 1, 2), mk(EMPLACE, 2, 0), mk(INSERT, 0, 2), mk(ERASE, 0), mk(ERASE, 1), mk(TOUCH, 0),
-      mk(TOUCH_SZ, 1, 1), mk(CHANGE_SIZE, 2, 1), mk(EVICT), mk(SWAP_XY), mk(CLEAR)};
-}
-
-std::vector<Op> map_alphabet(const std::vector<int>& sizes, const std::vector<int>& values, bool with_swap) {
-  std::vector<Op> a;
-  bool def_size_in_scope = false;
-  for (int s : sizes) if (s == 1) def_size_in_scope = true;
-  for (int k = 0; k < 3; k++) for (int v : values) for (int s : sizes) a.push_back(mk(INSERT, k, s, v));
-  if (def_size_in_scope) for (int k = 0; k < 3; k++) for (int v : values) a.push_back(mk(INSERT_DEF, k, 0, v));
-#ifdef C12_HAVE_INSERT_CONSTREF
-  for (int k = 0; k < 3; k++) for (int v : values) for (int s : sizes) a.push_back(mk(INSERT_C, k, s, v));
-#endif
-  for (int k = 0; k < 3; k++) for (int v : values) for (int s : sizes) a.push_back(mk(EMPLACE, k, s, v));
-  for (int k = 0; k < 3; k++) a.push_back(mk(ERASE, k));
-  for (int k = 0; k < 3; k++) a.push_back(mk(AT, k));
-#ifdef C12_HAVE_AT_CONST
-  for (int k = 0; k < 3; k++) a.push_back(mk(AT_CONST, k));
-#endif
-  for (int k = 0; k < 3; k++) for (int v : values) a.push_back(mk(AT_WRITE, k, 0, v));
-  for (int k = 0; k < 3; k++) a.push_back(mk(ITEM_SIZE, k));
-  for (int k = 0; k < 3; k++) for (int s : sizes) a.push_back(mk(CHANGE_SIZE, k, s));
-  for (int k = 0; k < 3; k++) for (int s : sizes) for (int t = 0; t < 2; t++) a.push_back(mk(CHANGE_SIZE_F, k, s, 0, t != 0));
-  for (int k = 0; k < 3; k++) a.push_back(mk(TOUCH, k));
-  for (int k = 0; k < 3; k++) for (int s : sizes) a.push_back(mk(TOUCH_SZ, k, s));
-  a.push_back(mk(EVICT));
-  a.push_back(mk(CLEAR));
-  if (with_swap) { a.push_back(mk(SWAP_XY)); a.push_back(mk(SWAP_YX)); a.push_back(mk(SWAP_XX)); }
-  return a;
-}
-std::vector<Op> map_medium() {  // ~31 letters for the length-5 runs
-  std::vector<Op> a;
-  for (int k = 0; k < 3; k++) a.push_back(mk(INSERT, k, 1, 10));
-  for (int k = 0; k < 3; k++) a.push_back(mk(INSERT, k, 2, 11));
-#ifdef C12_HAVE_INSERT_CONSTREF
-  for (int k = 0; k < 3; k++) a.push_back(mk(INSERT_C, k, 2, 11));
-#endif
-  for (int k = 0; k < 3; k++) a.push_back(mk(EMPLACE, k, 2, 10));
-  for (int k = 0; k < 3; k++) a.push_back(mk(ERASE, k));
-  for (int k = 0; k < 3; k++) a.push_back(mk(AT, k));
-#ifdef C12_HAVE_AT_CONST
-  a.push_back(mk(AT_CONST, 0));
-#endif
-  a.push_back(mk(ITEM_SIZE, 0));
-  for (int k = 0; k < 3; k++) a.push_back(mk(CHANGE_SIZE_F, k, 2, 0, false));
-  for (int k = 0; k < 3; k++) a.push_back(mk(CHANGE_SIZE_F, k, 1, 0, true));
-  for (int k = 0; k < 3; k++) a.push_back(mk(TOUCH, k));
-  for (int k = 0; k < 3; k++) a.push_back(mk(TOUCH_SZ, k, 2));
-  a.push_back(mk(EVICT));
-  a.push_back(mk(CLEAR));
-  return a;
-}
-std::vector<Op> map_reduced() {  // 13 letters for the length-7 runs
-  std::vector<Op> a = {mk(INSERT, 0, 1, 10), mk(INSERT, 1, 2, 11), mk(EMPLACE, 2, 0, 10), mk(INSERT, 0, 2, 11), mk(EMPLACE, 1, 1, 10), mk(ERASE, 0),
-      mk(AT, 1), mk(AT, 0), mk(CHANGE_SIZE_F, 2, 2, 0, false), mk(TOUCH_SZ, 0, 1), mk(EVICT), mk(SWAP_XY), mk(CLEAR)};
-#ifdef C12_HAVE_AT_CONST
-  a[7] = mk(AT_CONST, 0);
-#endif
-#ifdef C12_HAVE_INSERT_CONSTREF
-  a[3] = mk(INSERT_C, 0, 2, 11);
-#endif
-  return a;
-}
-
-void insert_constref_note(vf::Run& r) {
-#ifndef C12_HAVE_INSERT_CONSTREF
-  r.notes.push_back("LRUMap::insert(const KeyT&, const ValueT&, size_t) is an ill-formed template on this tree (assigns a pair to an iterator; `i.total_size`): it cannot be instantiated, so only insert(KeyT&&, ValueT&&, size_t) is executed (compile-time defect, not decided)");
-#else
-  r.notes.push_back("LRUMap::insert(const KeyT&, const ValueT&, size_t) compiles on this tree and is part of every LRUMap alphabet");
-#endif
-#ifndef C12_HAVE_AT_CONST
-  r.notes.push_back("LRUMap::at(const KeyT&) const is an ill-formed template on this tree (binds Item& to a const map element): it cannot be instantiated, so only the non-const at() is executed (compile-time defect, not decided)");
-#else
-  r.notes.push_back("LRUMap::at(const KeyT&) const compiles on this tree and is part of every LRUMap alphabet");
-#endif
-}
+using SetSys = SetSysT<IntKey>;
+using MapSys = MapSysT<IntKey, IntVal>;
 
 }  // namespace
 
 // two LRUSet instances; every operation on X plus the three swaps; 226^2 list pairs
 VF_SECTION(set_bfs, 1, 1, 180) {
-  Checker<SetSys> c(r, set_alphabet(true));
+  Checker<SetSys> c(r, set_alphabet(S012, true));
   c.bfs_section("LRUSet<int>, instances X and Y, keys {0,1,2}, sizes {0,1,2}", 10);
 }
 
 // M1: one LRUMap instance, sizes {0,1,2}, values {10,11}
 VF_SECTION(map_m1_bfs, 1, 1, 180) {
-  Checker<MapSys> c(r, map_alphabet({0, 1, 2}, {10, 11}, false));
+  Checker<MapSys> c(r, map_alphabet(S012, {10, 11}, false));
   c.bfs_section("LRUMap<int,int> scope M1: one instance, keys {0,1,2}, sizes {0,1,2}, values {10,11}", 2);
   insert_constref_note(r);
 }
 
 // M2: two LRUMap instances with swap, sizes {1,2}, one value
 VF_SECTION(map_m2_bfs, 1, 1, 180) {
-  Checker<MapSys> c(r, map_alphabet({1, 2}, {10}, true));
+  Checker<MapSys> c(r, map_alphabet(S12, {10}, true));
   c.bfs_section("LRUMap<int,int> scope M2: instances X and Y with swap, keys {0,1,2}, sizes {1,2}, value 10", 3);
 }
 
 // un-merged runs
 VF_SECTION(set_seq, 12, 16, 120) {
   {
-    Checker<SetSys> c(r, set_alphabet(false));
+    Checker<SetSys> c(r, set_alphabet(S012, false));
     c.sequences(4, "LRUSet full one-instance alphabet");
   }
   if (r.thorough()) {
     Checker<SetSys> c(r, set_medium());
     c.sequences(5, "LRUSet medium alphabet");
   }
-  if (r.thorough()) {
+  {
     Checker<SetSys> c(r, set_reduced());
-    c.sequences(7, "LRUSet reduced alphabet with swap");
+    c.sequences(r.thorough() ? 7 : 6, "LRUSet reduced alphabet with swap");
   }
 }
 
 VF_SECTION(map_seq, 12, 16, 120) {
   {
-    Checker<MapSys> c(r, map_alphabet({0, 1, 2}, {10, 11}, false));
+    Checker<MapSys> c(r, map_alphabet(S012, {10, 11}, false));
     c.sequences(3, "LRUMap full one-instance alphabet");
   }
   {
     Checker<MapSys> c(r, map_medium());
     c.sequences(r.thorough() ? 5 : 4, "LRUMap medium alphabet");
   }
-  if (r.thorough()) {
+  {
     Checker<MapSys> c(r, map_reduced());
-    c.sequences(7, "LRUMap reduced alphabet with swap");
+    c.sequences(r.thorough() ? 7 : 6, "LRUMap reduced alphabet with swap");
   }
 }
 
